@@ -15,8 +15,8 @@
 //!                        projected onto that key (real limiter run twice);
 //! * `duplicate-rejection` duplicating rejected attempts at the same instant changes a later
 //!                        decision (real limiter run twice);
-//! * `tracked-keys`       after an admitted attempt a tracked key (hook `verif_tracked_keys`) made
-//!                        no attempt within the last `4*duration`.
+//! * `tracked-keys`       after an attempt (admitted or refused) a tracked key (hook
+//!                        `verif_tracked_keys`) made no attempt within the last `4*duration`.
 //!
 //! An exact-arithmetic restatement of the sliding-window counter runs alongside; its agreement rate
 //! is reported as information only.
@@ -613,7 +613,9 @@ fn judge_bounds(h: &History, times: &[u64], dec: &[bool], tracked: &[Vec<u32>], 
                 st.cleanups += 1;
             }
             prev_tracked = mask.len();
-            if adm && !fired[3] {
+            // after every attempt, admitted or refused: refused traffic is traffic too, and a table
+            // that only shrinks when somebody is admitted does not shrink under a flood
+            if !fired[3] {
                 for tk in mask.iter().map(|k| *k as usize) {
                     let stale = match ks.get(tk) {
                         Some(s) if s.seen => {
@@ -627,7 +629,8 @@ fn judge_bounds(h: &History, times: &[u64], dec: &[bool], tracked: &[Vec<u32>], 
                         out.push(Finding {
                             signature: "tracked-keys",
                             what: format!(
-                                "after the admitted attempt of key {k} at t={t} ns the limiter still tracks key {tk} although {why} (4*duration = {} ns)",
+                                "after the {} attempt of key {k} at t={t} ns the limiter still tracks key {tk} although {why} (4*duration = {} ns)",
+                                if adm { "admitted" } else { "refused" },
                                 4 * d
                             ),
                             prefix: i + 1,
